@@ -1,45 +1,80 @@
 (* Props/C19.v — The toml! macro builds the same table as parsing the same text.
 
-   Objects: `astmt` (Spec/MacroSpec.v) is a TOML document as statements WITH the spelling choices that decide
-   its Rust tokens; `tokens_of` the token trees rustc hands to `toml!`; `macro_supported` the spellings the
-   macro has rules for; `eval` what parsing the text yields (the definition rules of Spec/Defs.v, numbers by
-   the TOML rules, date-times by the document grammar); `macro_eval` runs Model/Macro.v: the rules of
-   `toml_internal!` as data, a macro-by-example matcher and transcriber, and `insert_toml` /
-   `insert_table_toml` / `push_toml` / `traverse`.
+   Objects (Spec/MacroSpec.v, Model/Macro.v):
+     astmt            a TOML document as statements WITH the spelling choices that decide its Rust tokens
+                      (bare / quoted key segments, sign and digits of numbers, delimiter / fraction / offset of a
+                      date-time, a trailing comma)
+     tokens_of        the token trees rustc hands to `toml!` for that text
+     macro_supported  the spellings the macro has rules for: keys made of identifiers, plain decimal integers,
+                      dashes and quoted strings (and lexing as such); integers within i32; `-hh:mm` / `Z` offsets
+     eval             what PARSING the text yields: the TOML definition rules of Spec/Defs.v (proved equal to the
+                      parser's state machine in C09), numbers by the TOML rules, date-times by the document grammar;
+                      None for a document that is not (decidedly) valid
+     macro_eval       Model/Macro.v: the rules of `toml_internal!` as data, a macro-by-example matcher and
+                      transcriber (first rule that matches), `insert_toml` / `insert_table_toml` / `push_toml` /
+                      `traverse`, rustc's literal typing, `concat!` / `stringify!`, `Datetime::from_str`
+   Tables are compared as association lists in first-mention order (both sides produce literally the same list);
+   the observation of the real code sorts by key.
 
-   FULL STATEMENT (target):
-     C19_macro_eq_parse : forall l t, macro_supported l = true -> eval l = Some t ->
-                                      macro_eval (tokens_of l) = EOk t.
-   See the end of the file for what is proved of it and what is missing. *)
+   The theorems are about the model; the model is tied to the real macro by lib/props/c19.py: generated documents
+   compiled inside toml!{..} by rustc against the working tree, compared with the runtime parse (the oracle) and
+   with `macro_eval` / `eval` of the extracted model. *)
 From TV Require Import Base.Prelude Base.Utf8 Model.Datetime Model.DatetimeStd Model.Numbers Model.Macro Spec.Defs Spec.MacroSpec.
-From TV Require Import Proofs.MacroSem Proofs.MacroExamples.
+From TV Require Import Proofs.MacroSem Proofs.MacroExamples Proofs.MacroEval Proofs.MacroStmt Proofs.MacroDoc Proofs.MacroDt Proofs.MacroTop.
 
-(* ---- the helper functions follow the definition rules (semantic half, all valid documents) ---- *)
-Theorem C19_helpers_follow_definition_rules_partial : forall l t,
+(* ---- THE CLAIM: macro = parse, for every supported valid document ---- *)
+Theorem C19_macro_eq_parse : forall l t,
+  macro_supported l = true -> eval l = Some t -> macro_eval (tokens_of l) = EOk t.
+Proof. exact macro_eq_parse. Qed.
+Print Assumptions C19_macro_eq_parse.
+
+(* the expansion neither fails nor runs out of the model's fuel on such a document *)
+Theorem C19_macro_total : forall l, macro_supported l = true -> valid l -> exists t, macro_eval (tokens_of l) = EOk t.
+Proof. exact macro_total. Qed.
+Print Assumptions C19_macro_total.
+
+(* ---- the two halves, separately ---- *)
+(* (1) semantic: on every valid document the helper functions build what the definition rules say
+       (no restriction on spellings; this is where the defect repaired in b3ebafc lived) *)
+Theorem C19_helpers_follow_definition_rules : forall l t,
   eval l = Some t -> helper_fold (MTab []) [] l = Some t.
 Proof. exact helpers_follow_definition_rules. Qed.
-Print Assumptions C19_helpers_follow_definition_rules_partial.
+Print Assumptions C19_helpers_follow_definition_rules.
 
-Theorem C19_helper_step_partial : forall t cur st t' cur',
+Theorem C19_helper_step : forall t cur st t' cur',
   ref_step (t, cur) st = ROk (t', cur') ->
   helper_step (MTab (erase_tree t)) cur st = Some (MTab (erase_tree t'), cur').
 Proof. exact helper_step_ref. Qed.
-Print Assumptions C19_helper_step_partial.
+Print Assumptions C19_helper_step.
 
-(* ---- spellings that compile but are outside macro_supported: the macro differs from the parser ---- *)
+(* (2) values: every supported value is given its TOML meaning (scalars through rustc's literal typing,
+       date-times through stringify!/concat!/from_str, arrays and inline tables through the @array / @table loops) *)
+Theorem C19_value_eq_parse : forall v m, val_ok v = true -> val_meaning v = Some m -> val_ev v m (vcost v).
+Proof. exact value_eq_parse. Qed.
+Print Assumptions C19_value_eq_parse.
+
+(* date-times: a space between date and time becomes `T`, and the standalone parser agrees with the grammar (C12) *)
+Theorem C19_datetime_rules : forall d dv, dt_ok d = true -> doc_datetime (dt_text d) = Some dv ->
+  datetime_value (dt_norm_toks d) = EOk (MDatetime dv).
+Proof. exact dt_agree. Qed.
+Print Assumptions C19_datetime_rules.
+
+(* ---- spellings that COMPILE but are outside macro_supported: the macro differs from the parser ---- *)
+(* `05 = 1`: concat! prints an integer literal by value: key "5" instead of "05" *)
 Theorem C19_int_key_refuted :
   exists l t t', forallb (fun s => match s with AKeyVal [KBare [KPInt k]] v => forallb is_digit k && val_ok v | _ => false end) l = true
                  /\ eval l = Some t /\ macro_eval (tokens_of l) = EOk t' /\ t <> t'.
 Proof. exact int_key_refuted. Qed.
 Print Assumptions C19_int_key_refuted.
 
+(* `a = -2147483649`: the negated literal is an i32 and wraps silently: 2147483647 *)
 Theorem C19_negative_wrap_refuted :
   exists l t t', forallb (fun s => match s with AKeyVal p (AInt SgMinus x) => path_ok p && int_text_ok x | _ => false end) l = true
                  /\ eval l = Some t /\ macro_eval (tokens_of l) = EOk t' /\ t <> t'.
 Proof. exact negative_wrap_refuted. Qed.
 Print Assumptions C19_negative_wrap_refuted.
 
-(* ---- the hypotheses are satisfiable, and on these documents model macro = eval (by computation) ---- *)
+(* ---- the hypotheses are satisfiable; on these documents model macro = eval also by plain computation ---- *)
 Example ex_mixed_ok : macro_supported ex_mixed = true /\ exists t, eval ex_mixed = Some t /\ macro_eval (tokens_of ex_mixed) = EOk t.
 Proof. split; [reflexivity|]. eexists; split; vm_compute; reflexivity. Qed.
 Example ex_datetimes_ok : macro_supported ex_datetimes = true /\ exists t, eval ex_datetimes = Some t /\ macro_eval (tokens_of ex_datetimes) = EOk t.
@@ -48,5 +83,9 @@ Example ex_numbers_ok : macro_supported ex_numbers = true /\ exists t, eval ex_n
 Proof. split; [reflexivity|]. eexists; split; vm_compute; reflexivity. Qed.
 Example ex_aot_ok : macro_supported ex_aot = true /\ exists t, eval ex_aot = Some t /\ macro_eval (tokens_of ex_aot) = EOk t.
 Proof. split; [reflexivity|]. eexists; split; vm_compute; reflexivity. Qed.
+(* the theorem applied (not recomputed) *)
+Example ex_mixed_by_theorem : forall t, eval ex_mixed = Some t -> macro_eval (tokens_of ex_mixed) = EOk t.
+Proof. intros t H. apply C19_macro_eq_parse; [reflexivity|exact H]. Qed.
+(* the matcher's greedy choice is the only one for these rule heads (no local ambiguity for rustc's NFA) *)
 Example heads_deterministic_ok : heads_deterministic = true.
 Proof. vm_compute; reflexivity. Qed.
